@@ -131,8 +131,10 @@ def run(R):
         if ok:
             ta = Taint(cl, through="all")
             sel = ta.closure({rc[0]["term"]["d"][0]})
-            rm = [b for b in cl.blocks if b["term"]["k"] == "call" and not b["cleanup"] and callee_matches(b["term"], [REMOVE])]
-            ok = bool(rm) and all(op_local(b["term"]["args"][1]) in sel for b in rm)
+            rms = CallSink(REMOVE)
+            rm = [g_.blocks[i] if False else next(b for b in cl.blocks if b["id"] == i) for g_ in [None] for i in rms.blocks(cl)]
+            # in the function itself the key argument, in a `for_each(|key| self.remove(key))` the iterated collection, comes from the range
+            ok = bool(rm) and all(op_local(b["term"]["args"][0 if b["id"] in rms.closure_sites else 1]) in sel for b in rm)
         if not ok:
             R.viol("C10.cleanup.which", "cleanup-range", "clean-up must remove exactly records_by_distance.range(responsible_distance..)", cl, cl.lines[0])
         R.inst("C10.cleanup.which", "K7 table agreement", "clean-up removes records_by_distance.range(r..)", len(rr), ok)
@@ -163,6 +165,8 @@ def run(R):
             ops = [o for b in qm.blocks for s in b["stmts"] if s["rv"]["k"] == "agg" and s["rv"]["adt"].endswith("QuotingMetrics") and f in s["rv"]["fields"]
                    for o in [s["rv"]["ops"][s["rv"]["fields"].index(f)]]]
             det[f] = len(ops)
+            if f == "close_records_stored":
+                src = Taint(qm, through="all").closure(src)     # may pass through the `(count, density)` tuple of form B
             if not ops or not all(op_local(o) in src for o in ops):
                 ok = False
                 R.viol("C10.quote", "figure:%s" % f, "QuotingMetrics.%s is not taken from the store's own %s" % (f, f), qm, qm.lines[0])
@@ -171,8 +175,19 @@ def run(R):
         within = Taint(qm).closure(call_results([WITHIN])(qm))
         wc = [b for b in qm.blocks if b["term"]["k"] == "call" and callee_matches(b["term"], [WITHIN])]
         rngsrc = Taint(qm).closure({d for d, r, p in field_reads(qm, "responsible_distance_range")})
-        ok2 = bool(asg) and all(s["rv"]["k"] == "use" and op_local(s["rv"]["a"]) in within for s in asg) and bool(wc) and \
-            all(op_local(b["term"]["args"][1]) in rngsrc for b in wc)
+        if asg:
+            # form A: the literal holds the total count and the field is overwritten on the range side
+            ok2 = all(s["rv"]["k"] == "use" and op_local(s["rv"]["a"]) in within for s in asg)
+        else:
+            # form B: the figure is chosen first (`match range { Some(r) => within(r), None => total }`) and the literal built once:
+            # the literal's operand carries the in-range count, and that count is computed only on the `Some(range)` side
+            w_all = Taint(qm, through="all").closure(call_results([WITHIN])(qm))
+            ops_c = [o for b in qm.blocks for s in b["stmts"] if s["rv"]["k"] == "agg" and s["rv"]["adt"].endswith("QuotingMetrics") and "close_records_stored" in s["rv"]["fields"]
+                     for o in [s["rv"]["ops"][s["rv"]["fields"].index("close_records_stored")]]]
+            n_, acc_, rej_ = FieldOptGuard("responsible_distance_range", ("Some",)).edges(qm)
+            g_ = cfg_of(qm)
+            ok2 = bool(ops_c) and all(op_local(o) in w_all for o in ops_c) and bool(acc_) and not (set(b["id"] for b in wc) & g_.reach((0,), cut=acc_))
+        ok2 = ok2 and bool(wc) and all(op_local(b["term"]["args"][1]) in rngsrc for b in wc)
         if not ok2:
             R.viol("C10.quote", "figure:close_records_stored(range)", "with a responsible range, close_records_stored must be the in-range count for that range", qm, qm.lines[0])
         R.inst("C10.quote", "K6 flows-to", "quoted figures derive from the store's own state", 4, ok and ok2, det)
@@ -374,8 +389,8 @@ def setter_and_restore_rules(R):
         for gd in (CallGuard(["std::fs::File::open"], ("Ok",), "the file opens"), CallGuard(["rmp_serde::decode::from_read"], ("Ok",), "the file decodes")):
             rejects |= gd.edges(rq)[2]
         live = g.reach((0,), cut=rejects)
-        nones = [b for b in AggSink("core::option::Option", "None").blocks(rq) if b in live]
-        somes_ = [b for b in AggSink("core::option::Option", "Some").blocks(rq) if b in live]
+        nones = [b for b in AggSink("core::option::Option", "None", computed=True).blocks(rq) if b in live]
+        somes_ = [b for b in AggSink("core::option::Option", "Some", computed=True).blocks(rq) if b in live]
         okr = bool(somes_) and not nones
         if not okr:
             R.viol("C10.restore.complete", "metrics-discarded", "restore_quoting_metrics can answer None for a file that opens and decodes: the received-payment count is reset on that restart", rq, rq.lines[0])
